@@ -67,8 +67,14 @@ def unwrap_payload(e, variant):
 
 
 def checked(e):
-    """(a OpWithOverflow b).0  ->  ('Op', a, b); plain bin -> (op, a, b)"""
+    """(a OpWithOverflow b).0  ->  ('Op', a, b); plain bin -> (op, a, b); the Some payload of
+    a.checked_add(b) / checked_sub / checked_mul -> ('Add' | 'Sub' | 'Mul', a, b)"""
     e = e.strip()
+    p = unwrap_payload(e, "Some")
+    if p is not None:
+        p = p.strip()
+        if p.k == "call" and len(p.a) == 2 and p.x["path"].rsplit("::", 1)[-1] in ("checked_add", "checked_sub", "checked_mul") and "num::" in p.x["path"]:
+            return {"checked_add": "Add", "checked_sub": "Sub", "checked_mul": "Mul"}[p.x["path"].rsplit("::", 1)[-1]], p.a[0], p.a[1]
     if e.k == "field" and e.x["name"] == "0" and e.a[0].strip().k == "bin":
         b = e.a[0].strip()
         op = b.x["op"]
@@ -251,9 +257,57 @@ def ok_return_sites(body):
             c = callee_of(payload)
             if c and call_matches(c, "FromResidual::from_residual", "::from_residual"):
                 continue
+        if kind == "assign":
+            e = body._expr_of_def((site, kind, payload))
+            if e.k == "agg" and e.x.get("variant") == "Err" and e.x.get("adt", "").endswith("result::Result"):
+                continue      # `return Err(..)`: an explicit error exit is not a success exit either
         if site.bb in body.normal_blocks():
             out.append((site, kind, payload))
     return out
+
+
+def error_only_blocks(body):
+    """blocks from which no success exit can be reached: every return reachable from them yields an
+    error (`?`, `return Err(..)`) or they diverge.  Branches into such blocks are validity checks, not
+    decisions about what the function does when it succeeds."""
+    oks = {s.bb for s, k, p in ok_return_sites(body)}
+    rets = set(body.return_blocks())
+    d, _ = body.defs()
+    if not d.get(0):
+        return set()
+    good = set()
+    for bb in body.normal_blocks():
+        reach = body.reachable_from(bb) | {bb}
+        if reach & oks:
+            good.add(bb)
+    return {bb for bb in body.normal_blocks() if bb not in good and (body.reachable_from(bb) | {bb}) & rets}
+
+
+def success_guards(body, site):
+    """the branches that decide whether `site` is reached on a succeeding run: switch blocks that dominate
+    the site with exactly one successor leading to it, not counting branches whose other successors are
+    all error-only (validity checks)"""
+    eo = error_only_blocks(body)
+    out = []
+    for bb in sorted(body.normal_blocks()):
+        if body.term(bb)["t"] == "switch" and bb != site.bb and body.dominates(bb, site.bb):
+            succs = body.succs(bb)
+            toward = [x for x in succs if body.dominates(x, site.bb)]
+            if len(toward) == 1 and len(succs) > 1:
+                others = [x for x in succs if x != toward[0]]
+                if all(x in eo or diverges(body, x) for x in others):
+                    continue
+                out.append(bb)
+    return out
+
+
+def on_every_success_path_after(body, after_bb, site):
+    """every path that starts at `after_bb` and reaches a success exit passes `site`"""
+    if after_bb == site.bb:
+        return True
+    oks = {s.bb for s, k, p in ok_return_sites(body)}
+    reach = reachable_without(body, banned_blocks={site.bb}, start=after_bb)
+    return not (reach & oks)
 
 
 def err_return_sites(body):
@@ -445,8 +499,16 @@ def specialise_switch(b, pred, variant):
         if b.term(bb)["t"] != "switch":
             continue
         e, enum, labels, oth = switch_on(b, bb)
-        if pred(e, enum):
-            tgt = labels.get(variant, oth)
+        sel = pred(e, enum)
+        if sel:
+            # pred may name the variant itself (a string) or a truth value for a boolean switch
+            want = sel if isinstance(sel, str) else variant
+            if want in ("true", "false") and not labels:
+                t_ = b.term(bb)
+                zero = [tb for v, tb in t_["arms"] if int(v) == 0]
+                tgt = (t_["otherwise"] if want == "true" else (zero[0] if zero else None))
+            else:
+                tgt = labels.get(want, oth)
             if tgt is None:
                 continue
             raw["blocks"][bb]["term"] = {"t": "goto", "target": tgt, "span": b.term(bb)["span"], "specialised": variant}
